@@ -12,6 +12,7 @@ import (
 	"strings"
 
 	"github.com/mmcloughlin/avo/build"
+	"github.com/mmcloughlin/avo/operand"
 	"github.com/mmcloughlin/avo/reg"
 )
 
@@ -268,6 +269,63 @@ func c08(c *Ctx) {
 						}
 						o.AddCase(Case{Key: key, Desc: fmt.Sprintf("%s %s (%s) <-> %s (%s): %s", dir, kind, v.name, cl.name, r.Asm(), desc), Input: map[string]any{"dir": dir, "kind": kind, "via": v.name, "class": cl.name, "physical": phys}, Nontrivial: desc != "error"})
 					}
+				}
+			}
+		}
+	}
+	// where the move goes: a component that is neither the first parameter nor the first result, between
+	// neighbours of another size, must be accessed at the offset the Go compiler gives it (its bytes and
+	// nothing adjacent)
+	{
+		sizes := map[string]int{"bool": 1, "int8": 1, "int16": 2, "int32": 4, "int64": 8, "uint8": 1, "uint16": 2, "uint32": 4, "uint64": 8, "uintptr": 8, "float32": 4, "float64": 8}
+		align := func(x, a int) int { return (x + a - 1) / a * a }
+		for _, kind := range movKinds {
+			sz := sizes[kind]
+			for _, st := range []bool{false, true} {
+				ctx := build.NewContext()
+				ctx.Function("f")
+				ctx.Signature(mksig(nil, "func(a uint8, x "+kind+", b uint8) (p uint8, r "+kind+", q uint8)"))
+				var r reg.Register
+				switch {
+				case strings.HasPrefix(kind, "float"):
+					r = ctx.XMM()
+				case sz == 1:
+					r = ctx.GP8()
+				case sz == 2:
+					r = ctx.GP16()
+				case sz == 4:
+					r = ctx.GP32()
+				default:
+					r = ctx.GP64()
+				}
+				xoff := align(1, sz)
+				paramsEnd := xoff + sz + 1
+				want, name := xoff, "x"
+				if st {
+					ctx.Store(r, ctx.Return("r"))
+					want, name = align(paramsEnd, 8)+align(1, sz), "r"
+				} else {
+					ctx.Load(ctx.Param("x"), r)
+				}
+				f, err := ctx.Result()
+				dir := map[bool]string{false: "load", true: "store"}[st]
+				idx := o.AddCase(Case{Key: "mov:address:" + dir + ":" + kind, Desc: fmt.Sprintf("%s of the middle %s component of func(a uint8, x %s, b uint8) (p uint8, r %s, q uint8)", dir, kind, kind, kind), Input: map[string]any{"dir": dir, "kind": kind}, Nontrivial: true})
+				if err != nil || len(f.Functions()[0].Instructions()) != 1 {
+					o.Plan.GoViolations = append(o.Plan.GoViolations, GoViolation{Key: "mov:address", Desc: fmt.Sprintf("case %d: %s of %s between byte-sized neighbours fails: %v", idx, dir, kind, err)})
+					continue
+				}
+				in := f.Functions()[0].Instructions()[0]
+				found := false
+				for _, op := range in.Operands {
+					if m, isM := op.(operand.Mem); isM {
+						found = true
+						if m.Symbol.Name != name || m.Disp != want || m.Base != reg.FramePointer || m.Index != nil {
+							o.Plan.GoViolations = append(o.Plan.GoViolations, GoViolation{Key: "mov:address", Desc: fmt.Sprintf("case %d: %s of the %s component %s accesses %s; the Go compiler places it at %s+%d(FP)", idx, dir, kind, name, m.Asm(), name, want), Replay: map[string]any{"dir": dir, "kind": kind}})
+						}
+					}
+				}
+				if !found {
+					o.Plan.GoViolations = append(o.Plan.GoViolations, GoViolation{Key: "mov:address", Desc: fmt.Sprintf("case %d: %s of %s has no memory operand", idx, dir, kind)})
 				}
 			}
 		}
